@@ -7,8 +7,13 @@ pub struct IndentWidth(isize);
 impl IndentWidth {
     pub const DEFAULT: Self = Self(2);
 
+    /// The renderer writes the indentation of every line out as blanks: a
+    /// width that merely fits the machine word exhausts memory on the first
+    /// nested line.
+    pub const MAX: usize = u16::MAX as usize;
+
     pub const fn new(columns: usize) -> Option<Self> {
-        if columns == 0 || columns > isize::MAX as usize {
+        if columns == 0 || columns > Self::MAX {
             None
         } else {
             Some(Self(columns as isize))
